@@ -514,9 +514,11 @@ def debruijn(F):
     for nd in fn.nodes:
         if nd["k"] == "DeclStmt":
             for d in nd.get("decls", []):
-                if d.get("array_len") == 32 and "init" in d:
+                if "init" in d and (d.get("array_len") == 32 or "std::array<" in (d.get("rec") or "")):
                     t = fn.term(d["init"])
-                    if t[0] == "initlist" and all(x[0] == "const" for x in t[1]):
+                    if t[0] == "initlist" and len(t[1]) == 1 and t[1][0][0] == "initlist":
+                        t = t[1][0]         # std::array's braces around its built-in array
+                    if t[0] == "initlist" and len(t[1]) == 32 and all(x[0] == "const" for x in t[1]):
                         table = [x[1] for x in t[1]]
                         tvar = ("var", d["n"], d["d"])
     rets = returns(fn)
@@ -581,7 +583,17 @@ def convert_to_upper(F):
     calls = [nd for nd in fn.nodes if nd["k"] in CALLS and (nd.get("fq") or "").endswith("ConvertToUpperInPlace")]
     rets = returns(fn)
     inst = SU + "ConvertToUpper#delegates"
-    if len(calls) == 1 and fn.term(calls[0]["args"][0]) == v and len(rets) == 1 and fn.term(rets[0]["value"]) == v:
+    # the value folded and returned is the (by-value) argument itself, or a local copy of the argument
+    tgt = fn.term(calls[0]["args"][0]) if len(calls) == 1 else None
+    is_copy = False
+    if tgt is not None and tgt != v and tgt[0] == "var":
+        for nd in fn.nodes:
+            if nd["k"] == "DeclStmt":
+                for d in nd.get("decls", []):
+                    if ("var", d.get("n"), d.get("d")) == tgt and "init" in d and not d.get("is_ref"):
+                        it = fn.term(d["init"])
+                        is_copy = it == v or (it[0] == "ctor" and it[2] == (v,))
+    if len(calls) == 1 and (tgt == v or is_copy) and len(rets) == 1 and fn.term(rets[0]["value"]) == tgt:
         out.append(ok("R-SIB", inst, fn.loc(calls[0]["id"]), fn.qn, "ConvertToUpper returns its argument after ConvertToUpperInPlace", "shape found", nontrivial=False))
     else:
         out.append(bad("R-SIB", inst, fn.loc(fn.body), fn.qn, "ConvertToUpper returns its argument after ConvertToUpperInPlace", "shape not found"))
